@@ -29,6 +29,7 @@ class Field:
     info: object = None  # INDEX: offset ; COUNT: collection ; SUM: list of terms ; FLOAT: provenance
     fmt: Optional[str] = None
     line: int = 0
+    post: object = None  # chain of (helper FunctionDef, argument passed as text?) applied to the token (cxa/streval.py)
 
 
 @dataclass
@@ -423,15 +424,32 @@ class Extractor:
                 try:
                     for b in body[:-1]:
                         self.env[b.targets[0].id] = self.ev(b.value)
-                    return self.ev(body[-1].value)
+                    out = self.ev(body[-1].value)
                 finally:
                     self.inline_depth -= 1
                     self.env = saved
+                if out.kind != "other" and not (out.kind == "str" and any(isinstance(p_, Field) and p_.kind == "UNKNOWN" for p_ in out.parts)):
+                    return out
+            # a token formatter the symbolic builder cannot follow (conditionals on the text): keep the field typed and
+            # remember the helper; the token is produced by abstract evaluation of the helper per token class (cxa/streval.py)
+            argv = [self.ev(a) for a in n.args]
+            if len(argv) == 1:
+                a0 = argv[0]
+                fld, as_text = None, False
+                if a0.kind == "num" and a0.num.kind in ("FLOAT", "INDEX"):
+                    fld = a0.num
+                elif a0.kind == "str" and len(a0.parts) == 1 and isinstance(a0.parts[0], Field) and a0.parts[0].kind in ("FLOAT", "INDEX"):
+                    fld, as_text = a0.parts[0], True
+                if fld is not None:
+                    chain = list(fld.post or []) + [(h, as_text)]
+                    return S([Field(fld.kind, fld.info, fld.fmt, n.lineno, post=chain)])
         return AV("other")
 
 
 # ----------------------------------------------------------------------------- instantiation
-SAMPLE_FLOATS = ["0.1", "-2.25", "1.5e-07", "3.0", "-4.000000000000001e+16", "0.30000000000000004", "7.0"]
+# one representative per class of float spellings (str(float)): D.D, -D.D, D.De-DD, D.0, long mantissa with exponent,
+# 17 significant digits, De-DD and De+DD (no decimal point)
+SAMPLE_FLOATS = ["0.1", "-2.25", "1.5e-07", "3.0", "-4.000000000000001e+16", "0.30000000000000004", "7.0", "1e-07", "-2e+22"]
 
 
 class Instance:
@@ -493,11 +511,22 @@ class Instance:
         if f.kind == "FLOAT":
             s = SAMPLE_FLOATS[self._f % len(SAMPLE_FLOATS)]
             self._f += 1
+            orig = s
             if f.fmt:
                 try:
                     s = format(float(s), f.fmt)
                 except Exception:
                     pass
+            if f.post:
+                from .streval import NotPure, eval_helper
+                val = float(s) if not f.fmt else s
+                try:
+                    for (h, as_text) in f.post:
+                        val = eval_helper(h, [str(val) if (as_text and not isinstance(val, str)) else val])
+                    s = val if isinstance(val, str) else "<?>"
+                except NotPure:
+                    s = "<?>"
+            ctx = dict(ctx, sample=orig)
         elif f.kind == "INDEX":
             # cover the smallest and the largest vertex index
             base = [0, self.nv - 1, 1, 2, 3][self._i % 5]
